@@ -202,7 +202,23 @@ class Expander:
                 bind_target(n.targets[0], n.value)
             elif isinstance(n, ast.For):
                 bind_loop(n.target, n.iter)
+        # variables that are mutated in place are objects with identity, not temporaries
+        mutated: set[str] = set()
+        for n in ast.walk(fn_node):
+            if isinstance(n, (ast.Subscript, ast.Attribute)) and isinstance(n.ctx, (ast.Store, ast.Del)):
+                base = n.value
+                while isinstance(base, (ast.Subscript, ast.Attribute)):
+                    base = base.value
+                if isinstance(base, ast.Name):
+                    mutated.add(base.id)
+            elif isinstance(n, ast.AugAssign) and isinstance(n.target, ast.Name):
+                mutated.add(n.target.id)
+            elif isinstance(n, ast.Call) and isinstance(n.func, ast.Attribute) and isinstance(n.func.value, ast.Name) and \
+                    n.func.attr in ("append", "extend", "add", "update", "insert", "pop", "sort", "setdefault", "remove", "clear", "add_task", "add_tasks"):
+                mutated.add(n.func.value.id)
         for nm, v in simple.items():
+            if nm in mutated:
+                continue
             if counts.get(nm, 0) == 1 and nm not in params:
                 if any(isinstance(x, (ast.Yield, ast.YieldFrom, ast.Await, ast.NamedExpr)) for x in ast.walk(v)):
                     continue
